@@ -259,21 +259,10 @@ fn c16_rpc_tcp_parse_cut43() {
     rpc_tcp_parse(43)
 }
 
-//# harness: c16_rpc_tcp_frame_case0
-//# props: C16
-//# tier: quick
-//# encodes: proto::rpc::repl_tcp (record marking), build_repl
-//# bounds: control block holding a complete call (End state) with symbolic xid / program / version / procedure in region 0 (version outside 2..=4); empty segment
-//# cover: framed reply
-#[kani::proof]
-#[kani::unwind(48)]
-fn c16_rpc_tcp_frame_case0() {
-    rpc_tcp_frame(0)
-}
 
 //# harness: c16_rpc_tcp_frame_case1
 //# props: C16
-//# tier: thorough
+//# tier: quick
 //# encodes: proto::rpc::repl_tcp (record marking), build_repl
 //# bounds: control block holding a complete call (End state) with symbolic xid / program / version / procedure in region 1 (procedure 0); empty segment
 //# cover: framed reply
@@ -283,17 +272,6 @@ fn c16_rpc_tcp_frame_case1() {
     rpc_tcp_frame(1)
 }
 
-//# harness: c16_rpc_tcp_frame_case2
-//# props: C16
-//# tier: thorough
-//# encodes: proto::rpc::repl_tcp (record marking), build_repl
-//# bounds: control block holding a complete call (End state) with symbolic xid / program / version / procedure in region 2 (GETPORT v2); empty segment
-//# cover: framed reply
-#[kani::proof]
-#[kani::unwind(48)]
-fn c16_rpc_tcp_frame_case2() {
-    rpc_tcp_frame(2)
-}
 
 /// benign dispatch classes of the matcher (lib/c10_z3.py): a datagram that stops one byte
 /// short of the RPC signature is handed to the RPC responder, which must stay silent
@@ -509,15 +487,3 @@ fn c16_rpc_udp_grid_procs_v6() {
     rpc_udp_grid(1, true)
 }
 
-//# harness: c16_rpc_getaddr_concrete
-//# props: C16 C01 C19@thorough
-//# tier: thorough
-//# encodes: proto::rpc::repl_udp, proto::rpc::rpc_parse, proto::rpc::build_repl, build_repl_portmap, build_repl_unknownprog, push_u32
-//# bounds: GETADDR (version 3, procedure 3) to the concrete endpoint 10.0.0.1:2048 (universal address of 12 characters = a multiple of 4); XID, flavors symbolic
-//# out: credential / verifier bodies longer than 0 bytes; (version, procedure) pairs outside the listed grid - the pair is concrete per grid point because it selects the code path; DUMP replies and universal addresses of symbolic endpoints (std Display formatting)
-//# cover: GETADDR answered
-#[kani::proof]
-#[kani::unwind(60)]
-fn c16_rpc_getaddr_concrete() {
-    rpc_getaddr_concrete()
-}
